@@ -136,6 +136,9 @@ def run_spec_search(ctx, rng, ntrees, npats, on_case=None, cfgs=CFGS, tree_size=
                             kid = 'C03-star-guard-inside-optional'
                         elif extra and not missing and group_first(pp):
                             kid = 'C02-group-segment-empty'
+                        elif extra and not missing and c['matchbase'] and c['follow'] and c['globstarlong'] and \
+                                all(sg in ('g', 'G') for sg in pp.split(':')[1].split('/')) and len(pp.split(':')[1].split('/')) > 1:
+                            kid = 'C05-matchbase-merged-globstars'
                         if kid and ctx.is_known(lambda e, kid=kid: e['id'] == kid):
                             known.setdefault(kid, (pattern, corr.flag_names(fv), sorted(extra)[:3]))
                         else:
